@@ -12,7 +12,7 @@ CRuns == {1, 7, 8, 9, 11, 12, 13, 24}
 CoarseD  == {0, 1, -1, 5, -7, 107, -107, 108, -108, 1131, -1131, 1132, -1132, 3000, -3000, 20000, -32000, 32000}
 CoarseSD == {-21, -20, 0, 1, 20, 50, 107, 108, 500}
 CoarseW  == {<<500>>, <<500, 500, 500, 600>>, <<500, 600, 700, 800, 900>>, <<0, 1000, 1000>>,
-             <<600, 500, 600, 250, 1200>>, <<300, 300, 3000>>}
+             <<600, 500, 600, 250, 1200>>, <<300, 300, 3000>>, <<-250>>, <<0>>, <<0, 0, 500>>, <<-250, 500>>}
 
 \* ---- fractional values on a grid four times finer than 16.16
 FineD  == {0, Q, -Q, 1, -1, 2, -2, 3, Q + 1, Q \div 2, -(Q \div 4) - 1, 107 * Q, -107 * Q - 2, 108 * Q + 2,
@@ -21,7 +21,7 @@ FineSD == {-21 * Q, 0, 1, Q + 1, 20 * Q + 2, 3 * Q + 87381, 9 * Q + 3, 2 * Q + 5
 FineW  == {<<500 * Q + Q \div 2>>, <<500 * Q + Q \div 2, 500 * Q + Q \div 2, 500 * Q + Q \div 2, 300 * Q + Q \div 4>>,
            <<500 * Q, 600 * Q, 700 * Q + Q \div 2>>, <<250 * Q + 1, 250 * Q + 1, 600 * Q>>,
            <<400 * Q + Q \div 4, 500 * Q + 3 * (Q \div 4), 500 * Q + 3 * (Q \div 4), 910 * Q>>,
-           <<500 * Q, 500 * Q, 600 * Q>>}
+           <<500 * Q, 500 * Q, 600 * Q>>, <<-(250 * Q) - Q \div 2>>, <<0>>, <<-(250 * Q) - Q \div 2, 0, 500 * Q>>}
 
 \* ---- the systematic stack-limit sweep (enumerated, fonts of two glyphs: .notdef + one sweep)
 SweepPlans == {<<0, 0>>, <<1, 1>>, <<23, 0>>, <<24, 0>>, <<25, 0>>, <<0, 24>>, <<24, 24>>, <<47, 1>>, <<48, 0>>, <<49, 0>>}
@@ -32,6 +32,13 @@ NoRuns     == {1}
 FineSweepAs == {5 * Q + 1, 300 * Q}
 FineSweepBs == {7 * Q + 2}
 SweepInit  == Init /\ ng = 2
+
+\* ---- width sweep (enumerated): fonts of 1..3 glyphs without outlines, every assignment of boundary
+\* widths (zero, negative, negative fractional, fractional, plain) to the glyphs
+W5          == {0, -(250 * Q) - Q \div 2, -(250 * Q), 500 * Q, 500 * Q + Q \div 2}
+WidthSweepW == {<<a, b, c>> : a \in W5, b \in W5, c \in W5}
+WidthPlans  == {<<0, 0>>, <<1, 0>>}
+WidthSD     == {20 * Q}
 
 \* ---- exhaustive configuration
 TinyD     == {0, 3}
